@@ -804,7 +804,7 @@ def stack1(cfg):
         for b, i, e in f.elements():
             if e.get('k') != 'call' or is_assert_elem(e):
                 continue
-            if e.get('name') == want and (e.get('cls') or '').startswith('std::stack<'):
+            if (e.get('name') == want or (want == 'push' and e.get('name') == 'emplace')) and (e.get('cls') or '').startswith('std::stack<'):
                 steps.add(b)
             elif want == 'push' and e.get('name') in FAMILY and (e.get('cls') or '') == f.cls:
                 steps.add(b)
